@@ -214,7 +214,7 @@ class E1Batch(Component):
     rule = "every E1 batch: all instance pairs sit exactly at / next to the threshold"
 
     def bounds(self, tier):
-        return {"N": 20 if tier == "quick" else 40, "measures": ["JACCARD", "COSINE", "DICE"]}
+        return {"N": 26 if tier == "quick" else 52, "measures": ["JACCARD", "COSINE", "DICE"]}
 
     def shards(self, tier):
         return 16
